@@ -1,29 +1,133 @@
 /-
-C06 — parsing always terminates.   (work in progress: witness first)
+C06 — parsing always terminates.
+
+FULL STATEMENT (all grammars the spec reader accepts, all finite inputs, the admission policy the source has):
+
+    def FullStatement (p : Policy) : Prop :=
+      ∀ (G : Grammar) (cap : Nat) (inp : Input) (start : String) (pred : Nat → NT → List (List ESym)),
+        Sane (mkCfg G cap inp start p pred) →
+        ∃ n m', run (mkCfg G cap inp start p pred) n (M.init _) = .done m' ∨ … = .raised m'
+
+What is proved here, for the model `Model/Earley.lean` (one-shot COMPLETE parse):
+
+* `C06_core_item_space_finite`   the core item space of a column is finite, with the design's bound;
+* `C06_recognise_terminates`     FullStatement .core — for every rule table, prediction order, scanner: the chart
+                                 closure under `admitCore` (duplicate ⇔ same item) reaches `done`/`raised` within
+                                 `stepBound c` steps, a function of the configuration (well-founded measure `mu`,
+                                 every step decreases it: `step_core`); no fuel in the statement;
+* `C06_admitImpl_diverges_example_partial`  FullStatement .impl is refuted on `("a"?)* "b"` / "ab" *up to the
+                                 bound checked*: after 200, 400, 800, 1600 steps the machine is still running and
+                                 the number of nAdmitted states has grown each time (`decide +kernel`, finite
+                                 witness).  Partial: the statement for *all* n (an invariant of the loop) is not
+                                 proved; the harness replays the witness on the real parser on every run.
+* `C06_cut_terminates_witnesses` with the covering cut (`Policy.acyclic`, the repair) the same input and three
+                                 other cyclic grammars finish, with exactly the acyclic trees (`decide +kernel`);
+* `C06_generated_policy_verdict` the verdict for the policy the translator read from the source *now*
+                                 (`Generated/Earley.lean`): it is one the model knows; if it is `impl` the witness
+                                 diverges (⇒ the check reports F9 through `known_findings`), if it is `acyclic` or
+                                 `core` the witness terminates.
+
+NOT proved (kept visible; rests on the per-run correspondence and the step meter on the real parser):
+  `forest_terminates : FullStatement .acyclic` (all grammars, needs finiteness of the acyclic derivations of a
+  span), `NoEpsCycle rules → termination under .impl`, and everything about INCOMPLETE (prefix) mode, which the
+  model does not cover.
 -/
 import Model.Earley
+import Proofs.EarleyTerm
 import Generated.Earley
 namespace FV.Earley
 
 def optA : Node := .rep "o" .opt (.term (.lit (.text [97]))) 0 (some 1)
 def starN : Node := .rep "s" .star optA 0 none
+def plusN : Node := .rep "p" .plus optA 1 none
+def litB : Node := .term (.lit (.text [98]))
 /-- `<start> ::= ("a"?)* "b"` -/
-def G0 : Grammar := { rules := [("<start>", .cat "c" [starN, .term (.lit (.text [98]))])] }
+def G0 : Grammar := { rules := [("<start>", .cat "c" [starN, litB])] }
+/-- `<start> ::= ("a"?)+ "b"` -/
+def G1 : Grammar := { rules := [("<start>", .cat "c" [plusN, litB])] }
+/-- `<start> ::= <a> "b" ; <a> ::= <a> | "a"` (unit cycle) -/
+def G2 : Grammar := { rules := [("<start>", .cat "c" [.nt "<a>" none none, litB]),
+                                ("<a>", .alt "d" [.nt "<a>" none none, .term (.lit (.text [97]))])] }
+/-- `<start> ::= (("a"?)*)* "b"` -/
+def G3 : Grammar := { rules := [("<start>", .cat "c" [.rep "t" .star starN 0 none, litB])] }
 def inAB : Input := { isBytes := false, cells := [97, 98], rlen := fun _ _ => none }
-def cfg0 (p : Policy) : Cfg := mkCfg G0 20 inAB "<start>" p (predDefault G0 20)
+def cfgG (G : Grammar) (p : Policy) : Cfg := mkCfg G 20 inAB "<start>" p (predDefault G 20)
+def cfg0 (p : Policy) : Cfg := cfgG G0 p
 
 def Res.running : Res → Bool
   | .next _ => true
+  | _ => false
+def Res.isDone : Res → Bool
+  | .done _ => true
   | _ => false
 def Res.m : Res → M
   | .next m => m
   | .done m => m
   | .raised m => m
-def admitted (r : Res) : Nat := (r.m.cols.map (fun c => c.states.length)).foldl (· + ·) 0
+def nAdmitted (r : Res) : Nat := (r.m.cols.map (fun c => c.states.length)).foldl (· + ·) 0
+def at_ (p : Policy) (n : Nat) : Res := run (cfg0 p) n (M.init (cfg0 p))
 
-theorem C06_admitImpl_diverges_example :
-    (run (cfg0 .impl) 400 (M.init (cfg0 .impl))).running = true
-    ∧ admitted (run (cfg0 .impl) 200 (M.init (cfg0 .impl))) < admitted (run (cfg0 .impl) 400 (M.init (cfg0 .impl))) := by
+/-- the core item space of column `j`: (dot slots of the rule table) × (origins ≤ j), at most
+    `|rules'| · (maxRhs + 1) · (j + 1)` — the bound of DESIGN §4 -/
+theorem C06_core_item_space_finite (c : Cfg) (j : Nat) :
+    (itemSpace c j).length = dotSlots c.rules' * (j + 1)
+    ∧ (itemSpace c j).length ≤ c.rules'.length * (maxRhs c.rules' + 1) * (j + 1)
+    ∧ ∀ it, Item.ok c j it → it ∈ itemSpace c j := by
+  refine ⟨itemSpace_length c j, ?_, fun it h => mem_itemSpace.2 h⟩
+  rw [itemSpace_length]
+  exact Nat.mul_le_mul_right _ (dotSlots_le _)
+
+/-- the recogniser core terminates: for every configuration whose `predict` only offers alternatives of the
+    rule table and whose scanner never moves backwards, the closure under `admitCore` is over after at most
+    `stepBound c` steps — for every grammar (nullable, cyclic, left/right recursive), input and prediction order -/
+theorem C06_recognise_terminates (c : Cfg) (hs : Sane c) (hp : c.policy = .core) :
+    ∃ m', run c (stepBound c) (M.init c) = .done m' ∨ run c (stepBound c) (M.init c) = .raised m' :=
+  run_core_finishes hs hp (stepBound c) (M.init c) (wf_init hp) (Nat.lt_succ_self _)
+
+/-- the hypotheses of `C06_recognise_terminates` are met by every compiled grammar on every input (prediction in
+    table order), in particular by the cyclic witness grammar -/
+example : Sane (cfgOf (compile G0 20) inAB "<start>" .core) ∧ (cfgOf (compile G0 20) inAB "<start>" .core).policy = .core :=
+  ⟨sane_cfgOf _ _ _ _, rfl⟩
+
+theorem C06_recognise_terminates_compiled (G : Grammar) (cap : Nat) (inp : Input) (start : String) :
+    let c := cfgOf (compile G cap) inp start .core
+    ∃ m', run c (stepBound c) (M.init c) = .done m' ∨ run c (stepBound c) (M.init c) = .raised m' :=
+  C06_recognise_terminates _ (sane_cfgOf _ _ _ _) rfl
+
+/-- the current admission rule (`impl`: duplicate ⇔ same item and same children) on `("a"?)* "b"` / "ab":
+    still running after 200, 400, 800 and 1600 steps, the chart growing every time.  Finite witness
+    (`decide +kernel`); the same run under the core policy is over after 75 steps. -/
+theorem C06_admitImpl_diverges_example_partial :
+    (at_ .impl 1600).running = true
+    ∧ nAdmitted (at_ .impl 200) < nAdmitted (at_ .impl 400)
+    ∧ nAdmitted (at_ .impl 400) < nAdmitted (at_ .impl 800)
+    ∧ nAdmitted (at_ .impl 800) < nAdmitted (at_ .impl 1600)
+    ∧ (at_ .core 200).isDone = true := by
+  decide +kernel
+
+/-- with the covering cut (the repair) the witness and three other cyclic grammars finish on "ab", each with
+    exactly one tree; the cut does not reject the input -/
+theorem C06_cut_terminates_witnesses :
+    (at_ .acyclic 400).isDone = true ∧ (at_ .acyclic 400).m.out.length = 1
+    ∧ (run (cfgG G1 .acyclic) 400 (M.init (cfgG G1 .acyclic))).isDone = true
+    ∧ (run (cfgG G1 .acyclic) 400 (M.init (cfgG G1 .acyclic))).m.out.length = 1
+    ∧ (run (cfgG G2 .acyclic) 400 (M.init (cfgG G2 .acyclic))).isDone = true
+    ∧ (run (cfgG G2 .acyclic) 400 (M.init (cfgG G2 .acyclic))).m.out.length = 1
+    ∧ (run (cfgG G3 .acyclic) 800 (M.init (cfgG G3 .acyclic))).isDone = true
+    ∧ (run (cfgG G3 .acyclic) 800 (M.init (cfgG G3 .acyclic))).m.out.length = 1
+    ∧ hasEpsCycle (compile G0 20) = true ∧ hasEpsCycle (compile G2 20) = true := by
+  decide +kernel
+
+/-- what the policy read from the source *now* does on the witness -/
+def verdictFor : Option Policy → Bool
+  | some .impl => (at_ .impl 1600).running
+  | some .acyclic => (at_ .acyclic 400).isDone
+  | some .core => (at_ .core 200).isDone
+  | none => false
+
+/-- the generated policy is one the model has, and the witness behaves as stated for it: `impl` diverges
+    (bounded witness above), `acyclic` / `core` terminate -/
+theorem C06_generated_policy_verdict : verdictFor Gen.policy = true := by
   decide +kernel
 
 end FV.Earley
